@@ -270,7 +270,14 @@ static int recv_events(m_ctx_t *c, int timeout) {
             bool msg_consumed = false;
             bool stale = false;
 
-            if (err == 0) {
+            if (err == EAGAIN || err == EINTR) {
+                /*
+                 * The source had nothing to hand over after all (eg: another module
+                 * polling the same signal consumed it): skip just this event,
+                 * the rest of the batch must not be dropped.
+                 */
+                err = 0;
+            } else if (err == 0) {
                 /* 
                  * Remove the source if it was a oneshot event.
                  * NOTE: this will reduce refs counter for evt->src to just 1,
